@@ -17,7 +17,7 @@ class C06(Prop):
             "the strict pcapng reader, frame parser and TCP reassembler; non-trivial = the output contains at least one "
             "packet; distinct = distinct scenario digests")
     reach = ["mode_healthy", "mode_faulty", "mode_foreign", "mode_empty", "mode_nk", "opt_m", "opt_c", "opt_a", "opt_g",
-             "opt_p", "opt_l", "output_has_tcp", "output_has_udp", "zero_length_record", "record_smaller_than_k"]
+             "opt_p", "opt_l", "opt_d", "output_has_tcp", "output_has_udp", "zero_length_record", "record_smaller_than_k"]
 
     def plan(self, tier):
         p = super().plan(tier)
@@ -119,6 +119,8 @@ class C06(Prop):
         for o in ("m", "c", "a", "g", "p"):
             if cli.get(o) or (o == "m" and "m" in cli and cli["m"] is not None):
                 out.count("reach:opt_" + o)
+        if cli.get("d") is not None:
+            out.count("reach:opt_d")
         if spec.get("container", {}).get("fmt") == "pcap":
             out.count("reach:opt_l")
         for k, v in ex["stats"].get("fault_fired", {}).items():
